@@ -269,6 +269,10 @@ def run_real(binpath, pid, ops_path, out_path, timeout):
 
 def execute(prop, pid, binpath, ops_path, workdir, tag, timeout=3600):
     """run real + model on an ops file -> dict(result)"""
+    # an extra run may exercise this property through ANOTHER property's generator and oracles of its engine
+    # (props "extra_runs": {"gen_prop": "Cyy"}): C07's "services are called only when ready" is only as good as the
+    # readiness composition of the service combinators (C12's run of the svc engine)
+    pid = prop.get("run_pid", pid)
     real_path = os.path.join(workdir, tag + ".real")
     rc, out, dt = run_real(binpath, pid, ops_path, real_path, timeout)
     res = {"harness_rc": rc, "harness_out": out[-3000:], "real_s": dt}
@@ -470,15 +474,17 @@ def main():
     # a replay file names the engine it was produced with (`# engine=…`); without the line it is the property's own
     replay_engine = None
     replay_build = ""
+    replay_run_prop = ""
     if args.replay:
         with open(args.replay, errors="replace") as f:
             for line in f:
-                m = re.match(r"# engine=(\S+)(?: build=(\S+))?", line)
+                m = re.match(r"# engine=(\S+)(?: build=(\S+))?(?: run_prop=(\S+))?", line)
                 if m:
                     replay_engine = m.group(1)
                     replay_build = m.group(2) or ""
+                    replay_run_prop = m.group(3) or ""
                     break
-    main_is_target = not (args.replay and replay_engine and (replay_engine != prop["engine"] or replay_build == "ndebug"))
+    main_is_target = not (args.replay and replay_engine and (replay_engine != prop["engine"] or replay_build == "ndebug" or replay_run_prop))
     binname = prop["harness_bin"]
     brc, bout, bdt = cargo_build(binname, prop.get("harness_features", []))
     binpath = os.path.join(TARGET, "debug", binname)
@@ -523,7 +529,10 @@ def main():
             continue
         eprop = dict(prop, engine=ex["engine"], harness_bin=ex["harness_bin"],
                      harness_features=ex.get("harness_features", prop.get("harness_features", []) if nd else []), ndebug=nd)
-        if args.replay and (replay_engine != ex["engine"] or (replay_build == "ndebug") != nd):
+        if ex.get("gen_prop"):
+            eprop["run_pid"] = ex["gen_prop"]
+        epid = eprop.get("run_pid", pid)
+        if args.replay and (replay_engine != ex["engine"] or (replay_build == "ndebug") != nd or replay_run_prop != ex.get("gen_prop", "")):
             continue
         xtag = "[ndebug]" if nd else "[extra]"
         with Lock("lean.lock"):
@@ -538,14 +547,14 @@ def main():
             eops = os.path.abspath(args.replay)
         else:
             eops = os.path.join(workdir, "ops-%s%s.txt" % (ex["engine"], "-nd" if nd else ""))
-            cdir = os.path.join(VERIF, "corpus", pid if nd else "%s.%s" % (pid, ex["engine"]))
+            cdir = os.path.join(VERIF, "corpus", epid if ex.get("gen_prop") else (pid if nd else "%s.%s" % (pid, ex["engine"])))
             with open(eops, "w") as f:
                 if os.path.isdir(cdir):
                     for fn in sorted(os.listdir(cdir)):
                         if fn.endswith(".ops"):
                             f.write(open(os.path.join(cdir, fn)).read().rstrip("\n") + "\n")
             egen = os.path.join(workdir, "gen-%s%s.txt" % (ex["engine"], "-nd" if nd else ""))
-            grc, gout, gdt = sh([ebin, "gen", "--prop", pid, "--tier", args.tier, "--seed", str(args.seed), "--out", egen],
+            grc, gout, gdt = sh([ebin, "gen", "--prop", epid, "--tier", args.tier, "--seed", str(args.seed), "--out", egen],
                                 env=harness_env(), timeout=3600)
             if grc != 0:
                 ob("correspondence:gen(%s)%s" % (ex["engine"], xtag), "correspondence", False, gout[-800:])
@@ -618,7 +627,7 @@ def main():
             if kn:
                 known_hits.append((key, kn["what"]))
                 continue
-            text = "# property %s: oracle failure on the REAL code (%s)\n# engine=%s%s\n# %s\n# key=%s shrink_runs=%d\n" % (pid, label, prop["engine"], " build=ndebug" if prop.get("ndebug") else "", ts[0]["msg"], key, runs) + "\n".join(small) + "\n"
+            text = "# property %s: oracle failure on the REAL code (%s)\n# engine=%s%s\n# %s\n# key=%s shrink_runs=%d\n" % (pid, label, prop["engine"], (" build=ndebug" if prop.get("ndebug") else "") + ((" run_prop=" + prop["run_pid"]) if prop.get("run_pid") else ""), ts[0]["msg"], key, runs) + "\n".join(small) + "\n"
             violations.append((write_replay("%s-%s.ops" % (pid, key), text), ts[0]["msg"]))
 
     any_t3 = False
